@@ -390,6 +390,9 @@ class kFlowDecomp(pathmodel.AbstractPathModelDAG):
 
         # Check if the greedy decomposition satisfies the subpath constraints
         if self.subpath_constraints:
+            # malformed constraints are reported by the parent constructor (ValueError); do not trip over them here
+            if not all(isinstance(subpath, list) and all(isinstance(e, tuple) and len(e) == 2 and self.G.has_edge(e[0], e[1]) for e in subpath) for subpath in self.subpath_constraints):
+                return False
             for subpath in self.subpath_constraints:
                 if self.subpath_constraints_coverage_length is None:
                     # By default, the length of the constraints is its number of edges 
